@@ -75,9 +75,20 @@ class FakeOS(object):
         return _os.access(fn, mode, *a, **kw)
 
 
+class Blocked(BaseException):
+    """a system call on a blocking descriptor that can never complete: the single-threaded main loop hangs"""
+
+
 class FakeFcntl(object):
     F_GETFL, F_SETFL = 3, 4
+    def __init__(self, kernel=None):
+        self.k = kernel
     def fcntl(self, fd, op, arg=0):
+        if self.k is not None:
+            if op == self.F_GETFL:
+                return self.k.fdflags.get(fd, 0)
+            if op == self.F_SETFL:
+                self.k.fdflags[fd] = arg
         return 0
     def __getattr__(self, name):
         import fcntl as _f
@@ -204,7 +215,8 @@ class SimKernel(object):
                       (ri, 'time', ri.time), (ev, 'clear', ev.clear)]
         self.clock = FakeTime(t0)
         so.os = FakeOS(self)
-        so.fcntl = FakeFcntl()
+        so.fcntl = FakeFcntl(self)
+        self.fdflags = {}
         sp.time = sd.time = ri.time = self.clock
         self.ev = ev
         self.script = script
@@ -280,6 +292,8 @@ class SimKernel(object):
             g = groups.setdefault(p.get('group', p['name']), {'prio': p.get('gprio', 999), 'pcs': [], 'listener': lst})
             g['pcs'].append(pc)
         out = []
+        self.late_configs = {}
+        late_groups = {p.get('group', p['name']) for p in programs if p.get('late')}
         for name, g in groups.items():
             if g['listener']:
                 evs = [getattr(events.EventTypes, n) for n in g['listener']['events']]
@@ -288,7 +302,8 @@ class SimKernel(object):
             else:
                 out.append(ProcessGroupConfig(self.options, name, g['prio'], g['pcs']))
         out.sort()
-        return out
+        self.late_configs = {c.name: c for c in out if c.name in late_groups}
+        return [c for c in out if c.name not in late_groups]
 
     def restore(self):
         for mod, attr, val in self.saved:
@@ -366,6 +381,7 @@ class SimKernel(object):
             raise OSError(errno.EBADF, 'bad fd')
         p, mode = ent
         (p.rfds if mode == 'r' else p.wfds).discard(fd)
+        self.fdflags.pop(fd, None)
         self.rec('close', fd=fd)
 
     def fork(self):
@@ -421,8 +437,9 @@ class SimKernel(object):
             return False
         c.state, c.status = 'zombie', status
         self.zombie_order.append(pid)
-        # the child's ends of the pipes close when it dies
-        self._child_gone(c)
+        # the child's ends of the pipes close when it dies -- unless a descendant it left behind still holds them
+        if not self.programs.get(c.name, {}).get('leaves_pipes_open'):
+            self._child_gone(c)
         return True
 
     def kill(self, pid, sig):
@@ -458,6 +475,9 @@ class SimKernel(object):
         if p.child_writer is None and not p.wfds:
             self.rec('read', fd=fd, data=b'', pipe=p.id)
             return b''
+        if not self.fdflags.get(fd, 0) & _os.O_NONBLOCK:
+            self.rec('blocked', call='read', fd=fd)
+            raise Blocked('read on blocking fd %d with no data' % fd)
         raise OSError(errno.EAGAIN, 'would block')
 
     def write(self, fd, data):
@@ -469,6 +489,9 @@ class SimKernel(object):
         if p.child_reader is None and not p.rfds:
             raise OSError(errno.EPIPE, 'broken pipe')
         room = p.capacity - len(p.buf)
+        if not self.fdflags.get(fd, 0) & _os.O_NONBLOCK and room < len(data) and p.child_reader is not None:
+            self.rec('blocked', call='write', fd=fd)
+            raise Blocked('write of %d bytes on blocking fd %d with %d bytes of room' % (len(data), fd, room))
         if room <= 0:
             raise OSError(errno.EAGAIN, 'would block')
         data = bytes(data)[:room]
@@ -523,6 +546,14 @@ class SimKernel(object):
                 self.options.signal_receiver.receive(a[1], None)
             elif k == 'rpc':
                 self.rpcdisp.queue.append((a[1], a[2], a[3]))
+            elif k == 'addgroup':
+                # the configuration now lists the group (as after reloadConfig); the API call activates it
+                cfg = self.late_configs.get(a[2])
+                if cfg is not None and cfg not in self.options.process_group_configs:
+                    self.options.process_group_configs.append(cfg)
+                self.rpcdisp.queue.append((a[1], 'supervisor.addProcessGroup', (a[2],)))
+            elif k == 'removegroup':
+                self.rpcdisp.queue.append((a[1], 'supervisor.removeProcessGroup', (a[2],)))
             elif k == 'foreign':
                 # a pid supervisord does not (any longer) know: never one of its live or unreaped children
                 c = self.children.get(a[1])
@@ -560,6 +591,10 @@ class SimKernel(object):
         try:
             self.supervisord.run()
             self.outcome = 'returned'
+        except Blocked as e:
+            self.outcome = 'blocked'
+            self.exc = str(e)
+            self.rec('boundary', passno=self.passno, **self.snapshot())
         except StopSim:
             self.outcome = 'stopsim'
         except asyncore.ExitNow:
